@@ -98,9 +98,17 @@ def replay_eval_only(me, r, rep):
         rep.violation("chord.evaluate", "raised-" + type(ex).__name__, {"ref_labels": rl, "est_labels": el, "message": str(ex)[:200]})
 
 
-def split_annotation(rng, iv, labs, unit=1 / 16.0):
-    """cut a random interval at an interior point on a fine lattice; both pieces keep the label"""
+def split_annotation(rng, iv, labs, unit=1 / 16.0, near=None):
+    """cut a random interval at an interior point on a fine lattice; both pieces keep the label.
+    With `near` (boundaries of the OTHER annotation) the cut is sometimes placed a few nanoseconds before / after one of them."""
     iv = np.asarray(iv, dtype=float)
+    if near is not None and rng.random() < 0.4:
+        opts = [(i, b + dlt) for b in near for dlt in (-4e-9, -2e-9, 3e-9) for i in range(len(iv))
+                if iv[i, 0] + 1e-6 < b + dlt < iv[i, 1] - 1e-6]
+        if opts:
+            i, t = rng.choice(opts)
+            niv = np.vstack([iv[:i], [[iv[i, 0], t], [t, iv[i, 1]]], iv[i + 1:]])
+            return niv, list(labs[:i]) + [labs[i], labs[i]] + list(labs[i + 1:]), float(t)
     cand = [i for i in range(len(iv)) if iv[i, 1] - iv[i, 0] >= 2 * unit]
     if not cand:
         return iv.copy(), list(labs), None
@@ -164,10 +172,10 @@ def run(tier, seed):
         base = call(c.evaluate, ri, rl, ei, el)
         for side in ("ref", "est"):
             if side == "ref":
-                ni, nl, t = split_annotation(rng, ri, rl, unit=(ri.max() - ri.min()) / 64.0)
+                ni, nl, t = split_annotation(rng, ri, rl, unit=(ri.max() - ri.min()) / 64.0, near=np.unique(ei).tolist())
                 b = call(c.evaluate, ni, nl, ei, el)
             else:
-                ni, nl, t = split_annotation(rng, ei, el, unit=(ri.max() - ri.min()) / 64.0)
+                ni, nl, t = split_annotation(rng, ei, el, unit=(ri.max() - ri.min()) / 64.0, near=np.unique(ri).tolist())
                 b = call(c.evaluate, ri, rl, ni, nl)
             if t is not None:
                 log.add("close", "chord.evaluate", base, b, {"what": "split " + side, "t": t, "ref_intervals": ri.tolist(), "ref_labels": rl,
